@@ -7,6 +7,7 @@ use core::{
 #[cfg(feature = "autocomplete")]
 use crate::autocomplete::{Autocompletion, Request};
 
+#[cfg_attr(feature = "verif-hooks", derive(Clone))]
 pub struct Editor<B: Buffer> {
     buffer: B,
 
@@ -245,6 +246,20 @@ impl<B: Buffer> Editor<B> {
             }
             _ => "",
         }
+    }
+}
+
+#[cfg(feature = "verif-hooks")]
+impl<B: Buffer> Editor<B> {
+    /// (whole buffer, valid, cursor)
+    pub fn __verif_state(&self) -> (&[u8], usize, usize) {
+        (self.buffer.as_slice(), self.valid, self.cursor)
+    }
+
+    /// Overwrite bytes that are not part of the line
+    pub fn __verif_poison(&mut self, byte: u8) {
+        let valid = self.valid;
+        self.buffer.as_slice_mut()[valid..].fill(byte);
     }
 }
 
